@@ -199,6 +199,7 @@ struct Schedule
     int P = 1;
     std::uint64_t seed = 0;
     bool tree = false;
+    int split = 0;               // > 0: the iterations are performed by two integrator calls, the second resumes the first one's checkpoint
     bool badpath = false;        // the checkpoint path cannot be written (missing directory): no rank may behave differently because of it
     int gextra = 0, goffset = 0; // the communicator is ranks [goffset, goffset + P) of a global world with gextra more processes
     std::vector<int> perm(std::uint64_t salt) const
@@ -370,7 +371,15 @@ void run_case(vf::Ctx& c, vf::RunCfg<T> const& cfg, std::vector<std::size_t> con
         LogFn fn{cfg.fn, &logs[rank]};
         RankLog* const log = &logs[rank];
         LogCb<Chk> cb{hep::mpi_callback<Chk>(modes[mode], file, target), log};
-        outs[rank].reset(new Chk(M::run(&world, fn, cfg, calls, start, cb)));
+        if (sch.split > 0 && static_cast<std::size_t>(sch.split) < calls.size())
+        {
+            // the campaign in two integrator calls: the second one continues the checkpoint the first one returned
+            std::vector<std::size_t> const head(calls.begin(), calls.begin() + sch.split), tail(calls.begin() + sch.split, calls.end());
+            Chk const mid = M::run(&world, fn, cfg, head, start, cb);
+            if (mid.results().size() < head.size()) { outs[rank].reset(new Chk(mid)); } // the callback ended the campaign already
+            else { outs[rank].reset(new Chk(M::run(&world, fn, cfg, tail, mid, cb))); }
+        }
+        else { outs[rank].reset(new Chk(M::run(&world, fn, cfg, calls, start, cb))); }
     });
     std::cout.rdbuf(old);
     g_tracked_file.clear();
@@ -625,9 +634,11 @@ void run(vf::Ctx& c)
         sch.goffset = static_cast<int>(t.pick(static_cast<std::size_t>(sch.gextra) + 1));
     }
     sch.badpath = t.pick(6) == 1;
+    if (t.pick(3) == 1 && n >= 2) { sch.split = 1 + static_cast<int>(t.pick(n - 1)); }
+    if (t.pick(8) == 1) { cfg.fn.family = 12; } // the integrand returns zero everywhere but fills its distributions
     c.desc << vf::type_name<T>::get() << " P=" << sch.P << " calls=" << vf::show(calls) << " mode=" << mode << " target=" << vf::show(target) << " schedule=" << sch.seed % 100000
            << (sch.tree ? " tree-reduction" : " linear-reduction") << " engine#" << engine
-           << (sch.badpath ? " unwritable-path" : "") << (sch.gextra ? " sub-communicator of a world with " + std::to_string(sch.P + sch.gextra) + " processes (offset " + std::to_string(sch.goffset) + ")" : std::string()) << ' ' << cfg.describe();
+           << (sch.badpath ? " unwritable-path" : "") << (sch.split ? " continued-after-" + std::to_string(sch.split) : std::string()) << (sch.gextra ? " sub-communicator of a world with " + std::to_string(sch.P + sch.gextra) + " processes (offset " + std::to_string(sch.goffset) + ")" : std::string()) << ' ' << cfg.describe();
 #define VF_DISPATCH(EE)                                                                                          \
     {                                                                                                            \
         using GE = vf::guard_engine<EE>;                                                                         \
@@ -655,6 +666,8 @@ void run(vf::Ctx& c)
     for (auto x : calls) { if (x < static_cast<std::size_t>(sch.P)) { c.label("calls<P"); break; } }
     if (sch.P >= 9) { c.label("P>=9"); }
     if (sch.gextra) { c.label("sub-communicator"); }
+    if (sch.split) { c.label("continued-checkpoint"); }
+    if (cfg.fn.family == 12) { c.label("zero-integrand-with-filled-distributions"); }
     if (sch.badpath && mode >= 2) { c.label("unwritable-checkpoint-path"); }
     if (target > T(0)) { c.label("positive-target"); }
     if (!cfg.fn.dists.empty()) { c.label("with-distributions"); }
